@@ -102,6 +102,20 @@ func c18hClass(r *packet.HandshakeResponse, err error) string {
 	return "other:" + s
 }
 
+// c18hRegToken picks one of the spellings ServerAuthHandler accepts as a first-connection
+// (registration) request: ClientID 0 with Token "new-client" or any "anonymous:" prefix.
+func c18hRegToken(r *rand.Rand) string {
+	switch r.Intn(5) {
+	case 0, 1:
+		return "new-client"
+	case 2:
+		return "anonymous:"
+	case 3:
+		return fmt.Sprintf("anonymous:device-%d", r.Intn(1000))
+	}
+	return "anonymous:new-client"
+}
+
 type c18hReg struct {
 	C, R int64
 	OK   bool
@@ -392,7 +406,10 @@ func TestVerifC18Handshake(t *testing.T) {
 							}
 						case "register", "regburst":
 							c0 := now()
-							cl := send(ev, "register", c, func(c *miniClient) (*packet.HandshakeResponse, error) { return c.FirstConnect() })
+							tok := c18hRegToken(r)
+							cl := send(ev, "register", c, func(c *miniClient) (*packet.HandshakeResponse, error) {
+								return c.handshake(&packet.HandshakeRequest{ClientID: 0, Token: tok, Version: "3.0", Protocol: "tcp", ConnectionType: "control"})
+							})
 							r0 := now()
 							if cl == "success" || cl == "ratelimited" {
 								regs = append(regs, c18hReg{c0.Nanoseconds(), r0.Nanoseconds(), cl == "success"})
